@@ -1,3 +1,3 @@
 """Rule modules register themselves with sa.runner.rule on import."""
 
-from . import admit, lazy, runtime, executors, resume, ownership, spec, fusion, memory, task, align, rechunk  # noqa: F401
+from . import admit, lazy, runtime, executors, resume, ownership, spec, fusion, memory, task, align, rechunk, hoist  # noqa: F401
